@@ -25,9 +25,13 @@ type Inline = { k: "p"; p: number } | { k: "q"; q: string };
 type VAo = { k: "x"; x: string };
 type Bad = { d: Date };
 type P2 = { x: Bad; y: string };
-parse.buildParsers<{ Tree: Tree; A: A; B: B; VA: VA; VB: VB; U: U; Holder: Holder; Inline: Inline; VAo: VAo; Bad: Bad; P2: P2 }>();
+type VD = { k: "d"; d: Date };
+type UD = VB | VD;
+type InlineD = { k: "p"; p: number } | { k: "dd"; d: Date };
+type HD = { ud: UD; i: InlineD };
+parse.buildParsers<{ Tree: Tree; A: A; B: B; VA: VA; VB: VB; U: U; Holder: Holder; Inline: Inline; VAo: VAo; Bad: Bad; P2: P2; VD: VD; UD: UD; InlineD: InlineD; HD: HD }>();
 """
-ALL = ["Tree", "A", "B", "VA", "VB", "U", "Holder", "Inline", "VAo", "Bad", "P2"]
+ALL = ["Tree", "A", "B", "VA", "VB", "U", "Holder", "Inline", "VAo", "Bad", "P2", "VD", "UD", "InlineD", "HD"]
 CFGS = [
     {"name": "defs", "ov": False, "refPathTemplate": "#/$defs/{name}", "definitionContainerKey": "$defs", "overrides": None},
     {"name": "openapi", "ov": False, "refPathTemplate": "#/components/schemas/{name}", "definitionContainerKey": None, "overrides": None},
